@@ -95,8 +95,22 @@ func viaParser(qs []query) []printed {
 	return res
 }
 
-// runLibrary pushes every query through both paths of the library.
-func runLibrary(qs []query) []printed {
+// viaNewFloat hands the value to constant.NewFloat and prints the constant.
+func viaNewFloat(kind string, x float64) (res printed) {
+	var c *constant.Float
+	if msg, p := mbt.Guard(func() { c = constant.NewFloat(irType[kind], x) }); p {
+		return printed{problem: "NewFloat-panic", detail: msg}
+	}
+	if msg, p := mbt.Guard(func() { res.out = c.Ident() }); p {
+		return printed{problem: "print-panic", detail: msg}
+	}
+	res.viaConst = res.out
+	return res
+}
+
+// runLibrary pushes every query through both paths of the library (vals[i] != nil: the value goes
+// through constant.NewFloat instead).
+func runLibrary(qs []query, vals []*float64) []printed {
 	const per = 1000
 	nb := (len(qs) + per - 1) / per
 	res := make([]printed, len(qs))
@@ -107,6 +121,10 @@ func runLibrary(qs []query) []printed {
 		}
 		copy(res[lo:hi], viaParser(qs[lo:hi]))
 		for i := lo; i < hi; i++ {
+			if vals[i] != nil {
+				res[i] = viaNewFloat(qs[i].kind, *vals[i])
+				continue
+			}
 			out, problem, detail := viaConstant(qs[i])
 			res[i].viaConst = out
 			if res[i].problem == "" && (problem != "" || out != res[i].out) {
